@@ -979,3 +979,9 @@ V("scc-marks-not-cleared", "break", ["C01"], P + "scc_propagator.py", "    visit
   expect_rule="R-MARK-REUSE")
 V("scc-marks-reallocated", "neutral", ["C01"], P + "scc_propagator.py", "    visited[:] = False\n", "    visited = np.zeros(n, dtype=np.bool)\n", "a fresh mark array instead of a reset")
 V("scc-marks-fill", "neutral", ["C01"], P + "scc_propagator.py", "    visited[:] = False\n", "    visited.fill(False)\n", "reset through fill()")
+# ---- R-TWO-SIDED (round 6)
+V("exactly-eq-upper-side-lost", "break", ["C01"], P + "exactly_eq_propagator.py", "            if count_min > 0:\n                return PROP_INCONSISTENCY\n", "",
+  "'more than c variables already equal a' is no longer a failure", "compute_domains_exactly_eq", expect_rule="R-TWO-SIDED")
+V("count-eq-lower-bound-not-stored", "break", ["C01"], P + "count_eq_propagator.py", "    counter[MIN] = max(counter[MIN], count_min)\n", "",
+  "the number of variables already equal to a no longer raises the counter's minimum (nor fails against its maximum)", "compute_domains_count_eq", expect_rule="R-TWO-SIDED")
+V("exactly-true-tests-mirrored", "neutral", ["C01", "C07"], P + "exactly_true_propagator.py", "            if count_min > 0:\n", "            if 0 < count_min:\n", "mirrored comparison")
